@@ -3,7 +3,7 @@ from .c08_dump import COQ_ID, SHAPE, MAX_POINTS, as_ints
 from . import c08_oracle as orc
 
 HDR = ('From Coq Require Import ZArith List QArith Qabs Bool Arith Lia.\n'
-       'Require Import Base.Corr Model.C08_Rules Proofs.C08_RulesProofs Proofs.C08_TensorProofs.\n'
+       'Require Import Base.Corr Model.C08_Rules Proofs.C08_RulesProofs Proofs.C08_TensorProofs Proofs.C08_FastProofs.\n'
        'Import ListNotations.\n')
 
 PRIMITIVE = ['RefPoint', 'RefLine', 'RefTri', 'RefTet']
@@ -13,7 +13,6 @@ TENSOR = {'RefQuad': ('RefLine', 'RefLine'), 'RefHex': ('RefQuad', 'RefLine'), '
 TOLINT = {'RefPoint': 'tol48', 'RefLine': 'tol48', 'RefTri': 'tol46', 'RefTet': 'tol46',
           'RefQuad': 'tolq', 'RefHex': 'tol45', 'RefWedge': 'tol45'}
 DELTA = 'delta50'
-UNIT_SECONDS = 43e-6     # measured: seconds per (61-bit limb)^2 product step in vm_compute
 PART_SECONDS = 3.0
 
 
@@ -33,9 +32,17 @@ def sfx(cell, n):
     return f'{COQ_ID[cell]}_{"m" if n < 0 else ""}{abs(n)}'
 
 
-def rule_literal(name, nodes_int, kx, kw):
-    body = ';\n  '.join('([' + '; '.join(zlit(x) for x in xs) + '], ' + zlit(w) + ')' for xs, w in nodes_int)
-    return f'Definition {name} : drule := mkR (Pos.shiftl 1 {kx}) (Pos.shiftl 1 {kw}) [\n  {body}\n]%Z.\n'
+def rule_literal(name, nodes_int, kx, kw, dictname=None, index=None):
+    """a rule as Coq term; with a dictionary the coordinates are written as indices into it"""
+    if dictname is None:
+        body = ';\n  '.join('([' + '; '.join(zlit(x) for x in xs) + '], ' + zlit(w) + ')' for xs, w in nodes_int)
+        return f'Definition {name} : drule := mkR (Pos.shiftl 1 {kx}) (Pos.shiftl 1 {kw}) [\n  {body}\n]%Z.\n'
+    body = ';\n  '.join('([' + '; '.join(f'{index[x]}%N' for x in xs) + '], ' + zlit(w) + ')' for xs, w in nodes_int)
+    return (f'Definition {name} : drule := mkR (Pos.shiftl 1 {kx}) (Pos.shiftl 1 {kw}) (decode {dictname} [\n  {body}\n]%Z).\n')
+
+
+def dict_literal(name, values):
+    return f'Definition {name} : list Z := [' + '; '.join(zlit(v) for v in values) + ']%Z.\n'
 
 
 def groups_of(dumps, cell):
@@ -47,30 +54,23 @@ def groups_of(dumps, cell):
     return {max(ns): sorted(ns) for ns in by.values()}
 
 
-def mono_cost(es):
-    s, c = 1, 0
-    for e in es:
-        if e:
-            c += s * e
-            s += e
-    return c + 1
-
-
 def plan_parts(cell, n_adv, nq):
-    """split the monomial list of a primitive rule into index ranges of about PART_SECONDS each"""
-    ms = orc.monos(SHAPE[cell], n_adv)
-    costs = [mono_cost(es) * nq * UNIT_SECONDS for es in ms]
-    total = sum(costs)
+    """split the monomial list of a directly checked rule into index ranges of about PART_SECONDS each
+    (cost model of the fast checker, measured: ~0.1 ms per coordinate and (monomial, node) pair)"""
+    dim = sum(SHAPE[cell])
+    nmon = orc.n_monos(SHAPE[cell], n_adv)
+    per = nq * (60e-6 + 100e-6 * dim)
+    table = nq * dim * n_adv * 60e-6
+    total = nmon * per + table
     nparts = max(1, int(total / PART_SECONDS + 0.999))
-    target = total / nparts
-    parts, start, acc = [], 0, 0.0
-    for i, c in enumerate(costs):
-        acc += c
-        if acc >= target and len(parts) < nparts - 1:
-            parts.append((start, i + 1 - start, acc))
-            start, acc = i + 1, 0.0
-    parts.append((start, len(ms) - start, acc))
-    return [p for p in parts if p[1] > 0], len(ms)
+    size = -(-nmon // nparts)
+    parts = []
+    start = 0
+    while start < nmon:
+        ln = min(size, nmon - start)
+        parts.append((start, ln, ln * per + table))
+        start += ln
+    return parts, nmon
 
 
 def pack(jobs, nfiles):
